@@ -14,7 +14,31 @@
  *   import  right-biased union; with a source without dictionary nothing changes
  *   dup     independent copy (flags included)
  *   iteration of uref->udict visits every present dictionary attribute exactly once
- * Flag attributes (UREF_ATTR_VOID_UREF) live in uref->flags: get/set/delete/copy/dup only. */
+ * Flag attributes (UREF_ATTR_VOID_UREF) live in uref->flags: get/set/delete/copy/dup only.
+ *
+ * Second family of operations (op octets 96..159, see NEWOPS; every other octet decodes as before, and so do all recorded tapes):
+ *   match        uref_<group>_match_<attr>(): "compares the attribute to a given prefix" / "to given values (min, max)",
+ *                "@return an error code": UBASE_ERR_NONE iff the attribute is present and the stored string starts with the
+ *                prefix / min <= value <= max; any error otherwise (the body returns the get error when absent,
+ *                UBASE_ERR_INVALID when out of range; every caller writes UBASE_RETURN(match)) — only "ok / not ok" is judged
+ *   copy_list    uref_attr_copy_list == the listed copy functions applied in order, stopping at the first one that returns
+ *                an error, whose code is returned (generated copy functions never fail here; the list also holds "strict"
+ *                copies written in this file that refuse an absent source, as a caller may write them)
+ *   delete_list  likewise with the generated delete functions (an absent attribute is the first error)
+ *   from_hex     uref_attr_set_opaque_from_hex[_va] and the generated uref_<group>_set_<attr>_from_hex: an even number of
+ *                hexadecimal digits of either case (or none) == set_opaque of the decoded octets. Anything else (odd number
+ *                of digits, other characters) is not documented: accepted are "error and nothing changed" or "success and
+ *                the attribute then reads back consistently" (the model follows the value read back)
+ *   set_va       uref_<group>_set_<attr>_va / uref_flow_set_def_va == set of the formatted string (the expected string is
+ *                assembled here by hand, not with printf)
+ *   priv         UREF_ATTR_UNSIGNED_UREF(attr, priv): a member of struct uref, absent iff UINT64_MAX (so set(UINT64_MAX)
+ *                reads back absent); get/set/delete/copy/cmp/match as for a dictionary attribute, uref_dup/fork copy it
+ *   fork         "duplicates a uref and attaches a new ubuf to the copy": attributes, flags and priv as uref_dup,
+ *                copy->ubuf == the ubuf passed, the source keeps its own
+ *   sibling      "allocates and initializes a new uref, allocated with a manager from an existing uref": no attribute,
+ *                no flag, same manager, source untouched; _control: "with extra attributes space" => has a dictionary
+ *   attach/detach_ubuf  change uref->ubuf only: every attribute of every uref reads as before; detach returns the
+ *                ubuf that was attached */
 #include "vp.h"
 #include "tape.h"
 #include "umem_count.h"
@@ -30,6 +54,9 @@
 #include "upipe/uref_clock.h"
 #include "upipe/uref_event.h"
 #include "upipe/uref_block_flow.h"
+#include "upipe/ubuf.h"
+#include "upipe/ubuf_block.h"
+#include "upipe/ubuf_block_mem.h"
 #include <stdlib.h>
 #include <stdio.h>
 #include <inttypes.h>
@@ -66,7 +93,13 @@ UREF_ATTR_RATIONAL_VA(vt, r_n, "v.r[%u]", test rational, unsigned nb, nb)
 enum { CL_REPL_DIFF, CL_REPL_SAME, CL_DEL_NOTLAST, CL_DEL_ABSENT, CL_GREW, CL_ALIAS, CL_SH, CL_VA, CL_NAMED_SHNAME, CL_PREFIX,
        CL_TYPECONF, CL_NODICT, CL_CONTROL, CL_DUP, CL_DUP_THEN_MUT, CL_IMPORT_NULL_DST, CL_IMPORT_NULL_SRC, CL_IMPORT_OVER,
        CL_COPY_PRESENT, CL_COPY_ABSENT_CLEARS, CL_CMP_BOTH_ABSENT, CL_CMP_ONE_ABSENT, CL_CMP_EQUAL, CL_CMP_DIFFER,
-       CL_CMP_DIFF_2_32, CL_CMP_FLOAT_LT1, CL_FLAG, CL_UDICT_CMP_EQ, CL_UDICT_CMP_NE, CL_NEG_INT, CL_FLOAT_SPECIAL, CL_POOL };
+       CL_CMP_DIFF_2_32, CL_CMP_FLOAT_LT1, CL_FLAG, CL_UDICT_CMP_EQ, CL_UDICT_CMP_NE, CL_NEG_INT, CL_FLOAT_SPECIAL, CL_POOL,
+       /* second family */
+       CL_M_STR_HIT, CL_M_STR_WHOLE, CL_M_STR_EMPTY, CL_M_STR_LAST_DIFF, CL_M_STR_LONGER, CL_M_ABSENT,
+       CL_M_NUM_HIT, CL_M_NUM_AT_MIN, CL_M_NUM_AT_MAX, CL_M_NUM_BELOW, CL_M_NUM_ABOVE, CL_M_NUM_INVERTED, CL_M_NUM_WIDE,
+       CL_CL_ALL, CL_CL_STOP, CL_DL_ALL, CL_DL_STOP,
+       CL_HEX_OK, CL_HEX_EMPTY, CL_HEX_ODD, CL_HEX_BAD_REFUSED, CL_HEX_BAD_TAKEN, CL_HEX_VA,
+       CL_SETVA, CL_SETDEFVA, CL_PRIV, CL_BOOLVA, CL_FORK, CL_SIBLING, CL_SIBLING_CONTROL, CL_ATTACH, CL_DETACH, CL_NCLASSES };
 static const char *const class_names[] = {
     "replace_var_different_size", "replace_var_same_size", "delete_not_last", "delete_absent_refused", "storage_grew",
     "alias_source", "shorthand_accessor", "printf_named_accessor", "named_with_shorthand_name", "prefix_names_same_type",
@@ -74,7 +107,16 @@ static const char *const class_names[] = {
     "import_into_uref_without_dict", "import_from_uref_without_dict", "import_overwrites", "attr_copy_present",
     "attr_copy_absent_clears_dst", "attr_cmp_both_absent", "attr_cmp_one_absent", "attr_cmp_identical", "attr_cmp_different",
     "attr_cmp_int_differ_by_multiple_of_2_32", "attr_cmp_float_differ_by_less_than_1", "flag_attribute",
-    "udict_cmp_equal", "udict_cmp_differ", "negative_int_or_rational", "float_special", "pool_depth_gt0", NULL };
+    "udict_cmp_equal", "udict_cmp_differ", "negative_int_or_rational", "float_special", "pool_depth_gt0",
+    "match_string_proper_prefix_hit", "match_string_whole_value", "match_string_empty_prefix", "match_string_prefix_differs_in_last_char",
+    "match_string_prefix_longer_than_value", "match_absent_attribute",
+    "match_number_hit", "match_number_value_eq_min", "match_number_value_eq_max", "match_number_value_eq_min_minus_1",
+    "match_number_value_eq_max_plus_1", "match_number_min_gt_max", "match_unsigned_bound_above_255_on_va_or_member_accessor",
+    "copy_list_all_applied", "copy_list_stopped_at_error", "delete_list_all_applied", "delete_list_stopped_at_error",
+    "from_hex_well_formed", "from_hex_empty_string", "from_hex_odd_digits", "from_hex_malformed_refused", "from_hex_malformed_accepted",
+    "from_hex_va",
+    "set_string_va", "flow_set_def_va", "priv_member_attribute", "bool_va_accessors", "uref_fork", "uref_sibling_alloc",
+    "uref_sibling_alloc_control", "uref_attach_ubuf", "uref_detach_ubuf", NULL };
 static const char *const base_str[NBASE + 1] = { "flag", "opaque", "string", "void", "bool", "small_unsigned", "small_int",
                                                  "unsigned", "int", "rational", "float" };
 
@@ -83,6 +125,8 @@ typedef int (*set_f)(struct uref *, const uint8_t *v, size_t n);
 typedef int (*del_f)(struct uref *);
 typedef int (*copy_f)(struct uref *, struct uref *);
 typedef int (*cmp_f)(struct uref *, struct uref *);
+typedef int (*match_f)(struct uref *, const uint8_t *x, const uint8_t *y);   /* string: x = prefix; numbers: x = min, y = max */
+#define NO_ACCESSOR (-1000)
 
 #define W_COMMON(id, g, a, ...) \
 static int id##_del(struct uref *u) { return uref_##g##_delete_##a(u, ##__VA_ARGS__); } \
@@ -90,38 +134,43 @@ static int id##_copy(struct uref *d, struct uref *s) { return uref_##g##_copy_##
 #define W_CMP(id, g, a, ...) \
 static int id##_cmp(struct uref *x, struct uref *y) { return uref_##g##_cmp_##a(x, y, ##__VA_ARGS__); }
 
-#define W_OPAQUE(id, g, a, ...) W_COMMON(id, g, a, ##__VA_ARGS__) \
+#define W_NOMATCH(id) static int id##_match(struct uref *u, const uint8_t *x_, const uint8_t *y_) { return NO_ACCESSOR; }
+#define W_OPAQUE(id, g, a, ...) W_COMMON(id, g, a, ##__VA_ARGS__) W_NOMATCH(id) \
 static int id##_get(struct uref *u, uint8_t *got, const uint8_t **gp, size_t *gn) { const uint8_t *p = NULL; size_t n = 0; \
     int e = uref_##g##_get_##a(u, &p, &n, ##__VA_ARGS__); if (ubase_check(e)) { *gp = p; *gn = n; } return e; } \
 static int id##_set(struct uref *u, const uint8_t *v, size_t n) { return uref_##g##_set_##a(u, v, n, ##__VA_ARGS__); }
 #define W_STRING(id, g, a, ...) W_COMMON(id, g, a, ##__VA_ARGS__) W_CMP(id, g, a, ##__VA_ARGS__) \
+static int id##_match(struct uref *u, const uint8_t *x_, const uint8_t *y_) { return uref_##g##_match_##a(u, (const char *)x_, ##__VA_ARGS__); } \
 static int id##_get(struct uref *u, uint8_t *got, const uint8_t **gp, size_t *gn) { const char *s = NULL; \
     int e = uref_##g##_get_##a(u, &s, ##__VA_ARGS__); if (ubase_check(e) && s) { *gp = (const uint8_t *)s; *gn = strlen(s) + 1; } return e; } \
 static int id##_set(struct uref *u, const uint8_t *v, size_t n) { return uref_##g##_set_##a(u, (const char *)v, ##__VA_ARGS__); }
-#define W_VOID(id, g, a, ...) W_COMMON(id, g, a, ##__VA_ARGS__) W_CMP(id, g, a, ##__VA_ARGS__) \
+#define W_VOID(id, g, a, ...) W_COMMON(id, g, a, ##__VA_ARGS__) W_CMP(id, g, a, ##__VA_ARGS__) W_NOMATCH(id) \
 static int id##_get(struct uref *u, uint8_t *got, const uint8_t **gp, size_t *gn) { *gn = 0; return uref_##g##_get_##a(u, ##__VA_ARGS__); } \
 static int id##_set(struct uref *u, const uint8_t *v, size_t n) { return uref_##g##_set_##a(u, ##__VA_ARGS__); }
-#define W_BOOL(id, g, a, ...) W_COMMON(id, g, a, ##__VA_ARGS__) W_CMP(id, g, a, ##__VA_ARGS__) \
+#define W_BOOL(id, g, a, ...) W_COMMON(id, g, a, ##__VA_ARGS__) W_CMP(id, g, a, ##__VA_ARGS__) W_NOMATCH(id) \
 static int id##_get(struct uref *u, uint8_t *got, const uint8_t **gp, size_t *gn) { bool b = false; int e = uref_##g##_get_##a(u, &b, ##__VA_ARGS__); got[0] = b; *gn = 1; return e; } \
 static int id##_set(struct uref *u, const uint8_t *v, size_t n) { return uref_##g##_set_##a(u, v[0] != 0, ##__VA_ARGS__); }
 #define W_SMALLU(id, g, a, ...) W_COMMON(id, g, a, ##__VA_ARGS__) W_CMP(id, g, a, ##__VA_ARGS__) \
+static int id##_match(struct uref *u, const uint8_t *x_, const uint8_t *y_) { return uref_##g##_match_##a(u, x_[0], y_[0], ##__VA_ARGS__); } \
 static int id##_get(struct uref *u, uint8_t *got, const uint8_t **gp, size_t *gn) { uint8_t b = 0; int e = uref_##g##_get_##a(u, &b, ##__VA_ARGS__); got[0] = b; *gn = 1; return e; } \
 static int id##_set(struct uref *u, const uint8_t *v, size_t n) { return uref_##g##_set_##a(u, v[0], ##__VA_ARGS__); }
 #define W_UNSIGNED(id, g, a, ...) W_COMMON(id, g, a, ##__VA_ARGS__) W_CMP(id, g, a, ##__VA_ARGS__) \
+static int id##_match(struct uref *u, const uint8_t *x_, const uint8_t *y_) { uint64_t mi, ma; memcpy(&mi, x_, 8); memcpy(&ma, y_, 8); \
+    return uref_##g##_match_##a(u, mi, ma, ##__VA_ARGS__); } \
 static int id##_get(struct uref *u, uint8_t *got, const uint8_t **gp, size_t *gn) { uint64_t x = 0; int e = uref_##g##_get_##a(u, &x, ##__VA_ARGS__); memcpy(got, &x, 8); *gn = 8; return e; } \
 static int id##_set(struct uref *u, const uint8_t *v, size_t n) { uint64_t x; memcpy(&x, v, 8); return uref_##g##_set_##a(u, x, ##__VA_ARGS__); }
-#define W_INT(id, g, a, ...) W_COMMON(id, g, a, ##__VA_ARGS__) W_CMP(id, g, a, ##__VA_ARGS__) \
+#define W_INT(id, g, a, ...) W_COMMON(id, g, a, ##__VA_ARGS__) W_CMP(id, g, a, ##__VA_ARGS__) W_NOMATCH(id) \
 static int id##_get(struct uref *u, uint8_t *got, const uint8_t **gp, size_t *gn) { int64_t x = 0; int e = uref_##g##_get_##a(u, &x, ##__VA_ARGS__); memcpy(got, &x, 8); *gn = 8; return e; } \
 static int id##_set(struct uref *u, const uint8_t *v, size_t n) { int64_t x; memcpy(&x, v, 8); return uref_##g##_set_##a(u, x, ##__VA_ARGS__); }
-#define W_FLOAT_(id, g, a, ...) W_COMMON(id, g, a, ##__VA_ARGS__) \
+#define W_FLOAT_(id, g, a, ...) W_COMMON(id, g, a, ##__VA_ARGS__) W_NOMATCH(id) \
 static int id##_get(struct uref *u, uint8_t *got, const uint8_t **gp, size_t *gn) { double x = 0; int e = uref_##g##_get_##a(u, &x, ##__VA_ARGS__); memcpy(got, &x, 8); *gn = 8; return e; } \
 static int id##_set(struct uref *u, const uint8_t *v, size_t n) { double x; memcpy(&x, v, 8); return uref_##g##_set_##a(u, x, ##__VA_ARGS__); }
 #define W_FLOAT(id, g, a, ...) W_FLOAT_(id, g, a, ##__VA_ARGS__) W_CMP(id, g, a, ##__VA_ARGS__)
-#define W_RATIONAL(id, g, a, ...) W_COMMON(id, g, a, ##__VA_ARGS__) \
+#define W_RATIONAL(id, g, a, ...) W_COMMON(id, g, a, ##__VA_ARGS__) W_NOMATCH(id) \
 static int id##_get(struct uref *u, uint8_t *got, const uint8_t **gp, size_t *gn) { struct urational r; r.num = 0; r.den = 0; \
     int e = uref_##g##_get_##a(u, &r, ##__VA_ARGS__); memcpy(got, &r.num, 8); memcpy(got + 8, &r.den, 8); *gn = 16; return e; } \
 static int id##_set(struct uref *u, const uint8_t *v, size_t n) { struct urational r; memcpy(&r.num, v, 8); memcpy(&r.den, v + 8, 8); return uref_##g##_set_##a(u, r, ##__VA_ARGS__); }
-#define W_FLAG(id, g, a) \
+#define W_FLAG(id, g, a) W_NOMATCH(id) \
 static int id##_get(struct uref *u, uint8_t *got, const uint8_t **gp, size_t *gn) { *gn = 0; return uref_##g##_get_##a(u); } \
 static int id##_set(struct uref *u, const uint8_t *v, size_t n) { uref_##g##_set_##a(u); return UBASE_ERR_NONE; } \
 static int id##_del(struct uref *u) { uref_##g##_delete_##a(u); return UBASE_ERR_NONE; } \
@@ -135,6 +184,20 @@ static int g_si2_get(struct uref *u, uint8_t *got, const uint8_t **gp, size_t *g
 static int g_si2_set(struct uref *u, const uint8_t *v, size_t n) { return uref_attr_set_small_int_va(u, (int8_t)v[0], UDICT_TYPE_SMALL_INT, "v.%s", "ab"); }
 static int g_si2_del(struct uref *u) { return uref_attr_delete_va(u, UDICT_TYPE_SMALL_INT, "v.%s", "ab"); }
 static int g_si2_copy(struct uref *d, struct uref *s) { return uref_attr_copy_small_int_va(d, s, UDICT_TYPE_SMALL_INT, "v.%s", "ab"); }
+W_NOMATCH(g_si) W_NOMATCH(g_si2)
+/* bool through the generic printf-named template functions (no UREF_ATTR_BOOL_VA macro exists) */
+static int g_b2_get(struct uref *u, uint8_t *got, const uint8_t **gp, size_t *gn) { bool b = false; int e = uref_attr_get_bool_va(u, &b, UDICT_TYPE_BOOL, "v.%s", "ab"); got[0] = b; *gn = 1; return e; }
+static int g_b2_set(struct uref *u, const uint8_t *v, size_t n) { return uref_attr_set_bool_va(u, v[0] != 0, UDICT_TYPE_BOOL, "v.%s", "ab"); }
+static int g_b2_del(struct uref *u) { return uref_attr_delete_va(u, UDICT_TYPE_BOOL, "v.%s", "ab"); }
+static int g_b2_copy(struct uref *d, struct uref *s) { return uref_attr_copy_bool_va(d, s, UDICT_TYPE_BOOL, "v.%s", "ab"); }
+W_NOMATCH(g_b2)
+/* the "private" attribute: UREF_ATTR_UNSIGNED_UREF(attr, priv, priv, ...) at the end of uref_attr.h, a member of struct uref */
+static int attr_priv_get(struct uref *u, uint8_t *got, const uint8_t **gp, size_t *gn) { uint64_t x = 0; int e = uref_attr_get_priv(u, &x); memcpy(got, &x, 8); *gn = 8; return e; }
+static int attr_priv_set(struct uref *u, const uint8_t *v, size_t n) { uint64_t x; memcpy(&x, v, 8); uref_attr_set_priv(u, x); return UBASE_ERR_NONE; }
+static int attr_priv_del(struct uref *u) { uref_attr_delete_priv(u); return UBASE_ERR_NONE; }
+static int attr_priv_copy(struct uref *d, struct uref *s) { uref_attr_copy_priv(d, s); return UBASE_ERR_NONE; }
+static int attr_priv_cmp(struct uref *x, struct uref *y) { return uref_attr_cmp_priv(x, y); }
+static int attr_priv_match(struct uref *u, const uint8_t *x_, const uint8_t *y_) { uint64_t mi, ma; memcpy(&mi, x_, 8); memcpy(&ma, y_, 8); return uref_attr_match_priv(u, mi, ma); }
 
 /* ---- wrappers: real headers */
 W_FLAG(fl_end, flow, end) W_FLAG(fl_disc, flow, discontinuity) W_FLAG(fl_random, flow, random) W_FLAG(fl_ref, clock, ref)
@@ -170,10 +233,11 @@ W_FLOAT_(vt_f_1, vt, f_n, 1) W_RATIONAL(vt_r_1, vt, r_n, 1)
 
 struct acc {
     const char *label; int base; enum udict_type type; const char *name;
-    get_f get; set_f set; del_f del; copy_f copy; cmp_f cmp;
+    get_f get; set_f set; del_f del; copy_f copy; cmp_f cmp; match_f match;
+    bool member;                      /* stored in a member of struct uref (priv), not in the dictionary */
 };
-#define E(id, base, type, name) { #id, base, type, name, id##_get, id##_set, id##_del, id##_copy, id##_cmp }
-#define EN(id, base, type, name) { #id, base, type, name, id##_get, id##_set, id##_del, id##_copy, NULL }
+#define E(id, base, type, name) { #id, base, type, name, id##_get, id##_set, id##_del, id##_copy, id##_cmp, id##_match, false }
+#define EN(id, base, type, name) { #id, base, type, name, id##_get, id##_set, id##_del, id##_copy, NULL, id##_match, false }
 #define T_O UDICT_TYPE_OPAQUE
 #define T_S UDICT_TYPE_STRING
 #define T_V UDICT_TYPE_VOID
@@ -219,8 +283,15 @@ static const struct acc accs[] = {
     E(pic_flow_hsub_0, T_SU, T_SU, "p.hsub[0]"), E(pic_flow_hsub_1, T_SU, T_SU, "p.hsub[1]"), E(pic_flow_chroma_0, T_S, T_S, "p.chroma[0]"),
     EN(pic_flow_fps, T_R, T_R, "p.fps"), E(pic_flow_align_hmoffset, T_I, T_I, "p.align_hmoffset"), EN(pic_flow_bar, T_O, T_O, "p.bar"),
     E(pic_flow_align, T_U, T_U, "p.align"), E(block_flow_octetrate, T_U, T_U, "b.octetrate"), E(block_flow_align_offset, T_I, T_I, "b.align_offset"),
+    /* appended later: never reached by the older key choices (they keep counting modulo NOLD) */
+    { "attr_priv", T_U, UDICT_TYPE_END, NULL, attr_priv_get, attr_priv_set, attr_priv_del, attr_priv_copy, attr_priv_cmp, attr_priv_match, true },
+    EN(g_b2, T_B, T_B, "v.ab"),
 };
 #define NACC ((int)(sizeof(accs) / sizeof(accs[0])))
+#define NNEW 2
+#define NOLD (NACC - NNEW)
+#define K_PRIV NOLD
+#define K_BOOLVA (NOLD + 1)
 #define MAXACC 128
 #define MAXUSED 40
 
@@ -231,13 +302,14 @@ struct muref {
     int ndict;                        /* present attributes that live in the dictionary */
     int order[MAXACC]; int norder;
     bool from_dup; int peer;
+    struct ubuf *ub;                  /* the ubuf this uref is expected to hold */
 };
 struct ctx {
     struct tape t; struct vp_report *rep; bool render;
-    struct umem_mgr *umem; struct udict_mgr *dmgr; struct uref_mgr *umgr;
+    struct umem_mgr *umem; struct udict_mgr *dmgr; struct uref_mgr *umgr; struct ubuf_mgr *bmgr;
     struct muref mu[MAXU];
     int used[MAXUSED]; int nused;
-    unsigned pat; int ret; uint64_t hash; uint32_t cls;
+    unsigned pat; int ret; uint64_t hash; uint64_t cls;
     const char *opname; char what[200];
     int touched, touched_key;
 };
@@ -246,15 +318,17 @@ static uint8_t valbuf[8192];
 #define R(...) do { if (c->render) vp_render(c->rep, __VA_ARGS__); } while (0)
 #define FAILK(oracle, ...) do { if (!c->ret) { char k_[96]; snprintf(k_, sizeof k_, "C10/%s/%s", oracle, c->opname); \
                                 c->ret = vp_fail(c->rep, k_, __VA_ARGS__); } } while (0)
-#define CLS(b) (c->cls |= 1u << (b))
+#define CLS(b) (c->cls |= (uint64_t)1 << (b))
 static bool base_var(int b) { return b == T_O || b == T_S; }
 static bool is_flag(int k) { return accs[k].base == 0; }
+static bool in_uref(int k) { return accs[k].base == 0 || accs[k].member; }     /* flag or member: not a dictionary attribute */
 
 static const char *key_str(int k)
 {
     static char buf[4][120]; static int rot;
     char *b = buf[rot++ & 3];
     if (is_flag(k)) snprintf(b, 120, "uref_%s (flag)", accs[k].label);
+    else if (accs[k].member) snprintf(b, 120, "uref_%s (member of struct uref)", accs[k].label);
     else if (accs[k].name) snprintf(b, 120, "uref_%s (%s \"%s\")", accs[k].label, base_str[accs[k].base], accs[k].name);
     else snprintf(b, 120, "uref_%s (%s shorthand %d)", accs[k].label, base_str[accs[k].base], (int)accs[k].type);
     return b;
@@ -262,7 +336,7 @@ static const char *key_str(int k)
 static int key_lookup(enum udict_type type, const char *name)
 {
     for (int k = 0; k < NACC; k++) {
-        if (is_flag(k) || accs[k].type != type) continue;
+        if (in_uref(k) || accs[k].type != type) continue;
         if (accs[k].name == NULL ? name == NULL : (name != NULL && !strcmp(accs[k].name, name))) return k;
     }
     return -1;
@@ -278,20 +352,27 @@ static void m_del(struct muref *m, int k)
 {
     if (!m->e[k].present) return;
     free(m->e[k].v); m->e[k].v = NULL; m->e[k].size = 0; m->e[k].present = false;
-    if (!is_flag(k)) m->ndict--;
+    if (!in_uref(k)) m->ndict--;
 }
 static void m_set(struct muref *m, int k, const uint8_t *v, size_t n)
 {
     uint8_t *nv = n ? malloc(n) : NULL;
     if (n) memcpy(nv, v, n);
-    if (m->e[k].present) free(m->e[k].v); else if (!is_flag(k)) m->ndict++;
+    if (m->e[k].present) free(m->e[k].v); else if (!in_uref(k)) m->ndict++;
     m->e[k].v = nv; m->e[k].size = n; m->e[k].present = true;
 }
 static void m_clear(struct muref *m) { for (int k = 0; k < NACC; k++) m_del(m, k); m->norder = 0; }
 static bool mv_eq(const struct mval *a, const struct mval *b)
 { return a->present == b->present && (!a->present || (a->size == b->size && (!a->size || !memcmp(a->v, b->v, a->size)))); }
 static bool m_dict_equal(const struct muref *a, const struct muref *b)
-{ for (int k = 0; k < NACC; k++) if (!is_flag(k) && !mv_eq(&a->e[k], &b->e[k])) return false; return true; }
+{ for (int k = 0; k < NACC; k++) if (!in_uref(k) && !mv_eq(&a->e[k], &b->e[k])) return false; return true; }
+/* a value as the accessor will report it: priv == UINT64_MAX is the member's "absent" */
+static void m_store(struct muref *m, int k, const uint8_t *v, size_t n)
+{
+    uint64_t x = 0;
+    if (accs[k].member && n == 8) memcpy(&x, v, 8);
+    if (accs[k].member && x == UINT64_MAX) m_del(m, k); else m_set(m, k, v, n);
+}
 
 static void val_str(char *out, size_t cap, int k, const uint8_t *v, size_t n)
 {
@@ -333,6 +414,7 @@ static void check_uref(struct ctx *c, int ui)
     if (!m->u || c->ret) return;
     for (int k = 0; k < NACC && !c->ret; k++) check_key(c, ui, k);
     if (c->ret) return;
+    if (m->u->ubuf != m->ub) { FAILK("ubuf", "after %s: u%d holds ubuf %p, expected %p (only attach/detach/fork/dup/free touch the ubuf)", c->what, ui, (void *)m->u->ubuf, (void *)m->ub); return; }
     m->norder = 0;
     if (m->u->udict == NULL) { CLS(CL_NODICT); return; }     /* every lookup above already said "absent" */
     static uint8_t seen[MAXACC];
@@ -393,7 +475,7 @@ static void udict_cmp_check(struct ctx *c, int a, int b)
     int r = udict_cmp(ma->u->udict, mb->u->udict);
     if (a != b) CLS(eq ? CL_UDICT_CMP_EQ : CL_UDICT_CMP_NE);
     if ((r == 0) != eq) {
-        int dk = -1; for (int k = 0; k < NACC; k++) if (!is_flag(k) && !mv_eq(&ma->e[k], &mb->e[k])) { dk = k; break; }
+        int dk = -1; for (int k = 0; k < NACC; k++) if (!in_uref(k) && !mv_eq(&ma->e[k], &mb->e[k])) { dk = k; break; }
         FAILK("cmp", "after %s: udict_cmp(u%d,u%d) = %d but the dictionaries %s%s", c->what, a, b, r,
               eq ? "hold the same attributes with the same values" : "differ, e.g. in ", eq ? "" : key_str(dk));
     }
@@ -401,7 +483,7 @@ static void udict_cmp_check(struct ctx *c, int a, int b)
 
 /* ------------------------------------------------------------------ slots */
 static int nlive(struct ctx *c) { int n = 0; for (int i = 0; i < MAXU; i++) if (c->mu[i].u) n++; return n; }
-static void release(struct ctx *c, int i) { if (c->mu[i].u) { uref_free(c->mu[i].u); c->mu[i].u = NULL; } m_clear(&c->mu[i]); c->mu[i].from_dup = false; c->mu[i].peer = -1; }
+static void release(struct ctx *c, int i) { if (c->mu[i].u) { uref_free(c->mu[i].u); c->mu[i].u = NULL; } m_clear(&c->mu[i]); c->mu[i].from_dup = false; c->mu[i].peer = -1; c->mu[i].ub = NULL; }
 static int do_alloc(struct ctx *c, int slot, bool control)
 {
     release(c, slot);
@@ -451,17 +533,18 @@ static int pick_key(struct ctx *c, bool need_cmp)
     int k;
     if ((sel & 3) <= 1 && c->nused) {
         k = c->used[tp_pick(&c->t, c->nused)];
-        if ((sel >> 2) % 4 == 1) k = (k + 1) % NACC;                 /* table neighbour: related name / type */
-        else if ((sel >> 2) % 4 == 2) k = (k + NACC - 1) % NACC;
+        if (k >= NOLD) ;                                             /* appended keys have no neighbours */
+        else if ((sel >> 2) % 4 == 1) k = (k + 1) % NOLD;            /* table neighbour: related name / type */
+        else if ((sel >> 2) % 4 == 2) k = (k + NOLD - 1) % NOLD;
     } else if ((sel & 3) == 2) k = 4 + tp_u8(&c->t) % 32;          /* the harness-declared families */
     else if (sel & 4) {                                             /* 64-bit and float attributes that have a cmp accessor */
         static const char *const num[] = { "vt_u_a", "vt_f_a", "vt_i_a", "vt_f_ab", "vt_u_ab", "vt_i_1", "flow_id", "clock_duration",
                                            "block_flow_octetrate", "block_flow_align_offset", "vt_f_a", "vt_f_ab" };
         const char *l = num[(sel >> 3) % 12];
         k = 0;
-        for (int i = 0; i < NACC; i++) if (!strcmp(accs[i].label, l)) k = i;
-    } else k = tp_u8(&c->t) % NACC;
-    if (need_cmp) for (int i = 0; i < NACC && !accs[k].cmp; i++) k = (k + 1) % NACC;
+        for (int i = 0; i < NOLD; i++) if (!strcmp(accs[i].label, l)) k = i;
+    } else k = tp_u8(&c->t) % NOLD;
+    if (need_cmp) for (int i = 0; i < NOLD && !accs[k].cmp; i++) k = (k + 1) % NOLD;
     return k;
 }
 static size_t gen_value(struct ctx *c, int ui, int k)
@@ -542,6 +625,8 @@ static void hash_val(struct ctx *c, int k, size_t n)
 static void classify_keys(struct ctx *c, struct muref *m, int k)
 {
     if (is_flag(k)) { CLS(CL_FLAG); return; }
+    if (accs[k].member) { CLS(CL_PRIV); return; }
+    if (k == K_BOOLVA) CLS(CL_BOOLVA);
     if (!accs[k].name) { CLS(CL_SH); return; }
     if (strchr(accs[k].name, '[')) CLS(CL_VA);
     if (!strcmp(accs[k].name, "f.def") || !strcmp(accs[k].name, "f.id") || !strcmp(accs[k].name, "p.cea_708") ||
@@ -562,12 +647,9 @@ static void after_store(struct ctx *c, struct muref *m, int k, bool was, size_t 
 }
 
 /* ------------------------------------------------------------------ operations */
-static void op_set(struct ctx *c)
+static void do_set(struct ctx *c, int ui, int k)
 {
-    c->opname = "set";
-    int ui = pick_live(c); if (ui < 0) return;
     struct muref *m = &c->mu[ui];
-    int k = pick_key(c, false);
     use_key(c, k);
     c->touched = ui; c->touched_key = k;
     size_t n = gen_value(c, ui, k);
@@ -579,8 +661,35 @@ static void op_set(struct ctx *c)
     int err = accs[k].set(m->u, valbuf, n);
     R("  %s -> %d%s\n", c->what, err, was ? (old != n ? " [replaces, other size]" : " [replaces]") : "");
     if (!ubase_check(err)) { FAILK("set-refused", "%s returns error %d inside the documented domain", c->what, err); return; }
-    m_set(m, k, valbuf, n);
+    m_store(m, k, valbuf, n);
     after_store(c, m, k, was, old, n, re0);
+}
+static void op_set(struct ctx *c)
+{
+    c->opname = "set";
+    int ui = pick_live(c); if (ui < 0) return;
+    do_set(c, ui, pick_key(c, false));
+}
+static void do_delete(struct ctx *c, int ui, int k)
+{
+    struct muref *m = &c->mu[ui];
+    c->touched = ui; c->touched_key = k;
+    c->hash = vp_hash_mix(c->hash, k);
+    bool was = m->e[k].present;
+    bool notlast = was && !in_uref(k) && m->norder > 0 && m->order[m->norder - 1] != k;
+    snprintf(c->what, sizeof c->what, "u%d %s delete", ui, key_str(k));
+    int err = accs[k].del(m->u);
+    R("  %s -> %d%s\n", c->what, err, was ? (notlast ? " [present, not last]" : " [present]") : " [absent]");
+    if (in_uref(k)) { m_del(m, k); CLS(is_flag(k) ? CL_FLAG : CL_PRIV); return; }
+    if (was) {
+        if (!ubase_check(err)) { FAILK("delete-refused", "%s returns error %d although the attribute is present", c->what, err); return; }
+        m_del(m, k);
+        if (notlast) CLS(CL_DEL_NOTLAST);
+        if (m->from_dup) CLS(CL_DUP_THEN_MUT);
+    } else {
+        if (ubase_check(err)) { FAILK("delete-absent", "%s succeeds although the attribute is absent", c->what); return; }
+        CLS(CL_DEL_ABSENT);
+    }
 }
 static void op_delete(struct ctx *c)
 {
@@ -593,23 +702,7 @@ static void op_delete(struct ctx *c)
         int pos = (sel >> 2) % 4 == 0 ? 0 : (sel >> 2) % 4 == 1 ? m->norder - 1 : (int)tp_pick(&c->t, m->norder);
         k = m->order[pos];
     } else k = pick_key(c, false);
-    c->touched = ui; c->touched_key = k;
-    c->hash = vp_hash_mix(c->hash, k);
-    bool was = m->e[k].present;
-    bool notlast = was && !is_flag(k) && m->norder > 0 && m->order[m->norder - 1] != k;
-    snprintf(c->what, sizeof c->what, "u%d %s delete", ui, key_str(k));
-    int err = accs[k].del(m->u);
-    R("  %s -> %d%s\n", c->what, err, was ? (notlast ? " [present, not last]" : " [present]") : " [absent]");
-    if (is_flag(k)) { m_del(m, k); CLS(CL_FLAG); return; }
-    if (was) {
-        if (!ubase_check(err)) { FAILK("delete-refused", "%s returns error %d although the attribute is present", c->what, err); return; }
-        m_del(m, k);
-        if (notlast) CLS(CL_DEL_NOTLAST);
-        if (m->from_dup) CLS(CL_DUP_THEN_MUT);
-    } else {
-        if (ubase_check(err)) { FAILK("delete-absent", "%s succeeds although the attribute is absent", c->what); return; }
-        CLS(CL_DEL_ABSENT);
-    }
+    do_delete(c, ui, k);
 }
 static void op_alias(struct ctx *c)
 {
@@ -683,6 +776,10 @@ static void op_dup(struct ctx *c)
     for (int k = 0; k < NACC; k++) if (c->mu[s].e[k].present) m_set(m, k, c->mu[s].e[k].v, c->mu[s].e[k].size);
     m->from_dup = c->mu[s].from_dup = true; m->peer = s; c->mu[s].peer = slot;
     c->touched = slot;
+    /* the ubuf is duplicated too (a new ubuf structure): the copy holds one iff the source does */
+    if ((m->u->ubuf != NULL) != (c->mu[s].ub != NULL) || (m->u->ubuf && m->u->ubuf == c->mu[s].ub))
+        FAILK("ubuf", "%s: source holds %s ubuf, the copy holds %s", c->what, c->mu[s].ub ? "a" : "no", m->u->ubuf ? (m->u->ubuf == c->mu[s].ub ? "the very same structure" : "a") : "no");
+    m->ub = m->u->ubuf;
     CLS(CL_DUP);
 }
 static void op_import(struct ctx *c)
@@ -700,9 +797,9 @@ static void op_import(struct ctx *c)
     R("  %s -> %d\n", c->what, err);
     if (!ubase_check(err)) { FAILK("import-refused", "%s returns error %d", c->what, err); return; }
     for (int k = 0; k < NACC; k++) {
-        if (is_flag(k)) {        /* flags are not dictionary attributes: no expectation, the model follows the uref */
-            uint8_t g[16]; const uint8_t *gp; size_t gn;
-            if (ubase_check(accs[k].get(md->u, g, &gp, &gn))) m_set(md, k, NULL, 0); else m_del(md, k);
+        if (in_uref(k)) {        /* flags and priv are not dictionary attributes: no expectation, the model follows the uref */
+            uint8_t g[16]; const uint8_t *gp = g; size_t gn = 0;
+            if (ubase_check(accs[k].get(md->u, g, &gp, &gn))) m_set(md, k, gp, gn); else m_del(md, k);
             continue;
         }
         if (!ms->e[k].present) continue;
@@ -712,6 +809,21 @@ static void op_import(struct ctx *c)
     if (umem_count_stats(c->umem)->reallocs != re0) CLS(CL_GREW);
     if (md->from_dup) CLS(CL_DUP_THEN_MUT);
     c->touched = dst;
+}
+static void do_attr_copy(struct ctx *c, int dst, int src, int k)
+{
+    struct muref *md = &c->mu[dst], *ms = &c->mu[src];
+    use_key(c, k);
+    c->touched = dst; c->touched_key = k;
+    c->hash = vp_hash_mix(c->hash, (uint64_t)k << 8 | dst * 8 | src);
+    bool was = md->e[k].present; size_t old = md->e[k].size;
+    unsigned long re0 = umem_count_stats(c->umem)->reallocs;
+    snprintf(c->what, sizeof c->what, "%s copy(u%d <- u%d)", key_str(k), dst, src);
+    int err = accs[k].copy(md->u, ms->u);
+    R("  %s -> %d [source %s, destination %s]\n", c->what, err, ms->e[k].present ? "present" : "absent", was ? "present" : "absent");
+    if (!ubase_check(err)) { FAILK("attr-copy-refused", "%s returns error %d", c->what, err); return; }
+    if (ms->e[k].present) { m_set(md, k, ms->e[k].v, ms->e[k].size); CLS(CL_COPY_PRESENT); after_store(c, md, k, was, old, ms->e[k].size, re0); }
+    else { if (was) CLS(CL_COPY_ABSENT_CLEARS); m_del(md, k); }
 }
 static void op_attr_copy(struct ctx *c)
 {
@@ -724,17 +836,7 @@ static void op_attr_copy(struct ctx *c)
     if ((sel & 1) && ms->norder) k = ms->order[tp_pick(&c->t, ms->norder)];
     else if ((sel & 2) && md->norder) k = md->order[tp_pick(&c->t, md->norder)];
     else k = pick_key(c, false);
-    use_key(c, k);
-    c->touched = dst; c->touched_key = k;
-    c->hash = vp_hash_mix(c->hash, (uint64_t)k << 8 | dst * 8 | src);
-    bool was = md->e[k].present; size_t old = md->e[k].size;
-    unsigned long re0 = umem_count_stats(c->umem)->reallocs;
-    snprintf(c->what, sizeof c->what, "%s copy(u%d <- u%d)", key_str(k), dst, src);
-    int err = accs[k].copy(md->u, ms->u);
-    R("  %s -> %d [source %s, destination %s]\n", c->what, err, ms->e[k].present ? "present" : "absent", was ? "present" : "absent");
-    if (!ubase_check(err)) { FAILK("attr-copy-refused", "%s returns error %d", c->what, err); return; }
-    if (ms->e[k].present) { m_set(md, k, ms->e[k].v, ms->e[k].size); CLS(CL_COPY_PRESENT); after_store(c, md, k, was, old, ms->e[k].size, re0); }
-    else { if (was) CLS(CL_COPY_ABSENT_CLEARS); m_del(md, k); }
+    do_attr_copy(c, dst, src, k);
 }
 static void op_attr_cmp(struct ctx *c)
 {
@@ -771,6 +873,403 @@ static void op_free(struct ctx *c)
     release(c, a);
 }
 
+/* ================================================================== second family of operations */
+static int key_by_label(const char *l) { for (int k = 0; k < NACC; k++) if (!strcmp(accs[k].label, l)) return k; return 0; }
+static bool has_match(int k) { return accs[k].base == T_S || accs[k].base == T_SU || accs[k].base == T_U; }
+static bool is_opaque(int k) { return accs[k].base == T_O; }
+/* UREF_ATTR_UNSIGNED_VA and UREF_ATTR_UNSIGNED_UREF declare the match bounds of their 64-bit attribute as uint8_t */
+static bool match_bounds_declared_u8(int k) { return accs[k].member || !strncmp(accs[k].label, "event_id_", 9); }
+/* a key satisfying pred: two times out of three one that is present in m (when there is one) */
+static int pick_key_where(struct ctx *c, struct muref *m, bool (*pred)(int))
+{
+    int pres[MAXACC], np = 0, all[MAXACC], na = 0;
+    for (int k = 0; k < NACC; k++) if (pred(k)) { all[na++] = k; if (m && m->e[k].present) pres[np++] = k; }
+    uint8_t sel = tp_u8(&c->t);
+    if (np && sel % 3 != 2) return pres[tp_pick(&c->t, np)];
+    if (c->nused && (sel & 0x40)) { int k = c->used[tp_pick(&c->t, c->nused)]; if (pred(k)) return k; }
+    return all[tp_pick(&c->t, na)];
+}
+static char strbuf[17000];     /* prefix / hexadecimal text / formatted string handed to the library */
+static char expbuf[8300];
+
+static void op_match(struct ctx *c)
+{
+    c->opname = "match";
+    int ui = pick_live(c); if (ui < 0) return;
+    struct muref *m = &c->mu[ui];
+    int k = pick_key_where(c, m, has_match);
+    struct mval *e = &m->e[k];
+    uint8_t sel = tp_u8(&c->t);
+    bool want; int err;
+    c->hash = vp_hash_mix(c->hash, (uint64_t)k << 16 | sel << 3 | ui);
+    if (!e->present && (sel & 0xc0) != 0xc0) {        /* three times out of four give the attribute a value first */
+        c->opname = "set"; do_set(c, ui, k); c->opname = "match";
+        if (c->ret) return;
+    }
+    if (accs[k].base == T_S) {
+        const char *v = e->present ? (const char *)e->v : "";
+        size_t vl = e->present ? e->size - 1 : 0, pl;
+        bool lastdiff = false;
+        switch (sel & 7) {
+        case 0: pl = vl; memcpy(strbuf, v, pl); break;                                    /* the whole value */
+        case 1: pl = vl ? vl - 1 : 0; memcpy(strbuf, v, pl); break;                       /* all but the last character */
+        case 2: pl = vl ? vl : 1; memcpy(strbuf, v, vl); strbuf[pl - 1] = vl && v[vl - 1] == 'x' ? 'y' : 'x'; lastdiff = vl > 0; break;
+        case 3: pl = vl + 1; memcpy(strbuf, v, vl); strbuf[vl] = 'q'; break;              /* one character more than the value */
+        case 4: pl = 0; break;
+        case 5: pl = vl ? 1 : 0; memcpy(strbuf, v, pl); break;
+        case 6: {                                                                         /* a prefix with one character changed */
+            pl = vl ? (size_t)tp_range(&c->t, 1, vl) : 0; memcpy(strbuf, v, pl);
+            if (pl) { size_t at = tp_range(&c->t, 0, pl - 1); strbuf[at] = v[at] == 'x' ? 'y' : 'x'; lastdiff = at == pl - 1; }
+            break; }
+        default: pl = tp_u8(&c->t) % 5; for (size_t i = 0; i < pl; i++) strbuf[i] = "fbp.xyz"[tp_u8(&c->t) % 7]; break;
+        }
+        strbuf[pl] = 0;
+        want = e->present && pl <= vl;
+        for (size_t i = 0; want && i < pl; i++) if (v[i] != strbuf[i]) want = false;
+        c->hash = vp_hash_bytes(c->hash, strbuf, pl < 24 ? pl : 24);
+        if (!e->present) CLS(CL_M_ABSENT);
+        else if (want) CLS(pl == 0 ? CL_M_STR_EMPTY : pl == vl ? CL_M_STR_WHOLE : CL_M_STR_HIT);
+        else if (pl > vl && !memcmp(v, strbuf, vl)) CLS(CL_M_STR_LONGER);
+        else if (lastdiff && !memcmp(v, strbuf, pl - 1)) CLS(CL_M_STR_LAST_DIFF);
+        snprintf(c->what, sizeof c->what, "u%d %s match(prefix of %zu characters \"%.24s\"%s)", ui, key_str(k), pl, strbuf, pl > 24 ? ".." : "");
+        err = accs[k].match(m->u, (const uint8_t *)strbuf, NULL);
+        R("  %s -> %d [%s]\n", c->what, err, !e->present ? "absent" : want ? "value starts with it" : "value does not start with it");
+        if (ubase_check(err) != want)
+            FAILK("match", "%s returns %d; the attribute is %s%s (documented: compares the attribute to a given prefix, returns an error code)",
+                  c->what, err, e->present ? "present and " : "absent", e->present ? (want ? "starts with that prefix" : "does not start with that prefix") : "");
+        return;
+    }
+    bool small = accs[k].base == T_SU;
+    uint64_t top = small ? 255 : UINT64_MAX, v = 5, mi, ma;
+    if (e->present) { if (small) v = e->v[0]; else memcpy(&v, e->v, 8); }
+    switch (sel & 15) {
+    case 0: mi = ma = v; break;
+    case 1: mi = 0; ma = top; break;
+    case 2: mi = v < top ? v + 1 : top; ma = top; break;                  /* value == min - 1 */
+    case 3: mi = 0; ma = v ? v - 1 : 0; break;                            /* value == max + 1 */
+    case 4: mi = v ? v - 1 : 0; ma = v < top ? v + 1 : top; break;
+    case 5: mi = v; ma = top; break;
+    case 6: mi = 0; ma = v; break;
+    case 7: mi = v ? v : 1; ma = mi - 1; break;                           /* min > max: nothing lies in between */
+    case 8: mi = tp_u8(&c->t); ma = tp_u8(&c->t); break;
+    case 9: { uint64_t d = tp_u8(&c->t); mi = v > d ? v - d : 0; ma = top - v > d ? v + d : top; break; }
+    case 10: mi = small ? v : (v >> 32 < 0xffffffffu ? v + ((uint64_t)1 << 32) : v); ma = top; break;    /* differs from the value in the high half only */
+    case 11: mi = 0; ma = small ? v : (v >> 32 ? v - ((uint64_t)1 << 32) : v); break;
+    case 12: mi = small ? tp_u8(&c->t) : (uint64_t)tp_u8(&c->t) << 8; ma = small ? 255 : mi + tp_u16(&c->t); break;   /* e.g. [256, 1000] */
+    case 13: mi = v & ~(uint64_t)0xff; ma = small ? 255 : (v | 0xff) + 256; break;
+    default: mi = small ? tp_u8(&c->t) : tp_u64(&c->t); ma = small ? tp_u8(&c->t) : tp_u64(&c->t); if ((sel & 16) && mi > ma) { uint64_t t_ = mi; mi = ma; ma = t_; } break;
+    }
+    if (small) { mi &= 255; ma &= 255; }
+    want = e->present && mi <= v && v <= ma;
+    c->hash = vp_hash_mix(vp_hash_mix(c->hash, mi), ma);
+    if (!e->present) CLS(CL_M_ABSENT);
+    else {
+        if (want) { CLS(CL_M_NUM_HIT); if (v == mi && mi != ma) CLS(CL_M_NUM_AT_MIN); if (v == ma && mi != ma) CLS(CL_M_NUM_AT_MAX); }
+        else if (mi > ma) CLS(CL_M_NUM_INVERTED);
+        else if (v + 1 == mi) CLS(CL_M_NUM_BELOW);
+        else if (v == ma + 1) CLS(CL_M_NUM_ABOVE);
+        if (match_bounds_declared_u8(k) && (mi > 255 || ma > 255)) CLS(CL_M_NUM_WIDE);
+    }
+    uint8_t a8[8], b8[8];
+    if (small) { a8[0] = (uint8_t)mi; b8[0] = (uint8_t)ma; } else { memcpy(a8, &mi, 8); memcpy(b8, &ma, 8); }
+    snprintf(c->what, sizeof c->what, "u%d %s match(min %" PRIu64 ", max %" PRIu64 ")", ui, key_str(k), mi, ma);
+    err = accs[k].match(m->u, a8, b8);
+    char vs[40] = "absent"; if (e->present) snprintf(vs, sizeof vs, "value %" PRIu64, v);
+    R("  %s -> %d [%s]\n", c->what, err, vs);
+    if (ubase_check(err) != want)
+        FAILK("match", "%s returns %d; the attribute is %s%s (documented: compares the attribute to given values, min = minimum value, max = maximum value, returns an error code)%s",
+              c->what, err, vs, !e->present ? "" : want ? ", inside the range" : ", outside the range",
+              match_bounds_declared_u8(k) && (mi > 255 || ma > 255) ? " [this kind of accessor has been seen declaring min and max as uint8_t for its 64-bit attribute: a bound above 255 then arrives truncated]" : "");
+}
+
+/* copy functions as a caller may write them: they refuse an absent source (and so make uref_attr_copy_list stop) */
+static int strict_copy_flow_def(struct uref *d, struct uref *s) { const char *v; UBASE_RETURN(uref_flow_get_def(s, &v)); return uref_flow_set_def(d, v); }
+static int strict_copy_vt_u_a(struct uref *d, struct uref *s) { uint64_t v; UBASE_RETURN(uref_vt_get_u_a(s, &v)); return uref_vt_set_u_a(d, v); }
+static int strict_copy_vt_o_a(struct uref *d, struct uref *s) { const uint8_t *p; size_t n; UBASE_RETURN(uref_vt_get_o_a(s, &p, &n)); return uref_vt_set_o_a(d, p, n); }
+static const struct { const char *label; copy_f f; } stricts[] = {
+    { "flow_def", strict_copy_flow_def }, { "vt_u_a", strict_copy_vt_u_a }, { "vt_o_a", strict_copy_vt_o_a } };
+#define MAXLIST 6
+#define NEWOPS 96                   /* op octets 96 .. 159 select the second family (a window none of the recorded replay tapes uses: they all decode as before) */
+
+static void op_copy_list(struct ctx *c)
+{
+    c->opname = "copylist";
+    int dst = pick_live(c); if (dst < 0) return;
+    int src = pick_other(c, dst); if (src < 0) return;
+    struct muref *md = &c->mu[dst], *ms = &c->mu[src];
+    int n = tp_u8(&c->t) % (MAXLIST + 1);
+    int (*list[MAXLIST + 1])(struct uref *, struct uref *);
+    int keys[MAXLIST]; bool strict[MAXLIST];
+    char txt[160]; int o = 0; txt[0] = 0;
+    for (int i = 0; i < n; i++) {
+        uint8_t el = tp_u8(&c->t);
+        strict[i] = (el & 7) == 7;
+        if (strict[i]) { int si = (el >> 3) % 3; keys[i] = key_by_label(stricts[si].label); list[i] = stricts[si].f; }
+        else {
+            if ((el & 1) && ms->norder) keys[i] = ms->order[tp_pick(&c->t, ms->norder)];
+            else if ((el & 2) && md->norder) keys[i] = md->order[tp_pick(&c->t, md->norder)];
+            else keys[i] = pick_key(c, false);
+            list[i] = accs[keys[i]].copy;
+        }
+        use_key(c, keys[i]);
+        c->hash = vp_hash_mix(c->hash, keys[i] * 2 + strict[i]);
+        if (o < (int)sizeof txt - 40) o += snprintf(txt + o, sizeof txt - o, "%s%s%s", i ? ", " : "", strict[i] ? "strict " : "", accs[keys[i]].label);
+    }
+    c->hash = vp_hash_mix(c->hash, n << 8 | dst * 8 | src);
+    unsigned long re0 = umem_count_stats(c->umem)->reallocs;
+    snprintf(c->what, sizeof c->what, "uref_attr_copy_list(u%d <- u%d, {%s}, %d)", dst, src, txt, n);
+    int err = uref_attr_copy_list(md->u, ms->u, list, n);
+    int stop = -1;
+    for (int i = 0; i < n && stop < 0; i++) {
+        int k = keys[i];
+        if (!ms->e[k].present) { if (strict[i]) { stop = i; break; } m_del(md, k); continue; }
+        bool was = md->e[k].present; size_t old = md->e[k].size;
+        m_set(md, k, ms->e[k].v, ms->e[k].size);
+        after_store(c, md, k, was, old, ms->e[k].size, re0);
+    }
+    c->touched = dst; if (n) c->touched_key = keys[stop >= 0 ? stop : n - 1];
+    R("  %s -> %d [%s]\n", c->what, err, stop >= 0 ? "element refuses: stops there" : "all applied");
+    if (stop >= 0) { if (stop < n - 1) CLS(CL_CL_STOP); } else if (n > 1) CLS(CL_CL_ALL);
+    if (ubase_check(err) != (stop < 0))
+        FAILK("copy-list", "%s returns %d, but %s", c->what, err, stop >= 0 ? "one of the listed functions returned an error" : "none of the listed functions returns an error");
+}
+
+static void op_delete_list(struct ctx *c)
+{
+    c->opname = "deletelist";
+    int ui = pick_live(c); if (ui < 0) return;
+    struct muref *m = &c->mu[ui];
+    int n = tp_u8(&c->t) % (MAXLIST + 1);
+    int (*list[MAXLIST + 1])(struct uref *);
+    int keys[MAXLIST];
+    char txt[160]; int o = 0; txt[0] = 0;
+    for (int i = 0; i < n; i++) {
+        uint8_t el = tp_u8(&c->t);
+        if ((el & 3) != 3 && m->norder > 0) {
+            int pos = (el >> 2) % 4 == 0 ? 0 : (el >> 2) % 4 == 1 ? m->norder - 1 : (int)tp_pick(&c->t, m->norder);
+            keys[i] = m->order[pos];
+        } else keys[i] = pick_key(c, false);
+        list[i] = accs[keys[i]].del;
+        c->hash = vp_hash_mix(c->hash, keys[i]);
+        if (o < (int)sizeof txt - 40) o += snprintf(txt + o, sizeof txt - o, "%s%s", i ? ", " : "", accs[keys[i]].label);
+    }
+    c->hash = vp_hash_mix(c->hash, n << 8 | ui);
+    snprintf(c->what, sizeof c->what, "uref_attr_delete_list(u%d, {%s}, %d)", ui, txt, n);
+    int err = uref_attr_delete_list(m->u, list, n);
+    int stop = -1, ndel = 0;
+    for (int i = 0; i < n && stop < 0; i++) {
+        int k = keys[i];
+        if (in_uref(k)) { m_del(m, k); continue; }              /* these delete functions return nothing: the wrapper reports success */
+        if (!m->e[k].present) { stop = i; break; }
+        if (ndel == 0 && m->norder > 0 && m->order[m->norder - 1] != k) CLS(CL_DEL_NOTLAST);   /* order as iterated before this operation */
+        m_del(m, k); ndel++;
+    }
+    c->touched = ui; if (n) c->touched_key = keys[stop >= 0 ? stop : n - 1];
+    R("  %s -> %d [%s, %d deleted]\n", c->what, err, stop >= 0 ? "an absent attribute: stops there" : "all present", ndel);
+    if (ndel && m->from_dup) CLS(CL_DUP_THEN_MUT);
+    if (stop >= 0) { if (stop < n - 1 && stop > 0) CLS(CL_DL_STOP); } else if (n > 1) CLS(CL_DL_ALL);
+    if (ubase_check(err) != (stop < 0))
+        FAILK("delete-list", "%s returns %d, but %s", c->what, err, stop >= 0 ? "one of the listed attributes is absent when its turn comes" : "every listed attribute is present when its turn comes");
+}
+
+static void op_from_hex(struct ctx *c)
+{
+    c->opname = "fromhex";
+    int ui = pick_live(c); if (ui < 0) return;
+    struct muref *m = &c->mu[ui];
+    int k = pick_key_where(c, m, is_opaque);
+    use_key(c, k);
+    c->touched = ui; c->touched_key = k;
+    size_t n = gen_value(c, ui, k);
+    if (n > 700) n = 700;                                     /* the library decodes into a variable-length array on the stack, one sscanf per octet */
+    uint8_t mode = tp_u8(&c->t);
+    int form = mode & 7, api = (mode >> 3) & 3;
+    if (n == 0) form = 0;
+    const char *digits = (form == 2) ? "0123456789ABCDEF" : "0123456789abcdef";
+    size_t sl = 0;
+    for (size_t i = 0; i < n; i++) {
+        strbuf[sl++] = digits[valbuf[i] >> 4];
+        strbuf[sl++] = (form == 2 && (i & 1)) ? "0123456789abcdef"[valbuf[i] & 15] : digits[valbuf[i] & 15];
+    }
+    bool in_domain = true;
+    size_t at = 0;
+    switch (form) {
+    case 3: sl--; in_domain = false; break;                                             /* odd number of digits */
+    case 4: at = 2 * (size_t)tp_range(&c->t, 0, n - 1); strbuf[at] = "gz:x"[(mode >> 5) & 3]; in_domain = false; break;       /* first of a pair */
+    case 5: at = 2 * (size_t)tp_range(&c->t, 0, n - 1) + 1; strbuf[at] = "gz:x"[(mode >> 5) & 3]; in_domain = false; break;   /* second of a pair */
+    case 6: at = 2 * (size_t)tp_range(&c->t, 0, n - 1); strbuf[at + ((mode >> 5) & 1)] = " -+\t"[(mode >> 6) & 3]; in_domain = false; break;
+    default: break;
+    }
+    strbuf[sl] = 0;
+    hash_val(c, k, n);
+    c->hash = vp_hash_mix(c->hash, (uint64_t)mode << 16 | at);
+    bool was = m->e[k].present; size_t old = m->e[k].size;
+    unsigned long re0 = umem_count_stats(c->umem)->reallocs;
+    int err = NO_ACCESSOR; const char *how = "uref_attr_set_opaque_from_hex";
+    if (api >= 2) {                                           /* the accessor UREF_ATTR_OPAQUE generates, where the table has one */
+        const char *l = accs[k].label; how = "generated _from_hex";
+        if (!strcmp(l, "vt_o_a")) err = uref_vt_set_o_a_from_hex(m->u, strbuf);
+        else if (!strcmp(l, "vt_o_ab")) err = uref_vt_set_o_ab_from_hex(m->u, strbuf);
+        else if (!strcmp(l, "vt_n_cea")) err = uref_vt_set_n_cea_from_hex(m->u, strbuf);
+        else if (!strcmp(l, "flow_headers")) err = uref_flow_set_headers_from_hex(m->u, strbuf);
+        else if (!strcmp(l, "pic_flow_bar")) err = uref_pic_flow_set_bar_from_hex(m->u, strbuf);
+    }
+    if (err == NO_ACCESSOR && api == 1 && accs[k].name) {
+        how = "uref_attr_set_opaque_from_hex_va"; CLS(CL_HEX_VA);
+        if (!strcmp(accs[k].label, "vt_o_1")) err = uref_attr_set_opaque_from_hex_va(m->u, strbuf, accs[k].type, "v.o[%u]", 1u);
+        else if (!strcmp(accs[k].label, "vt_o_10")) err = uref_attr_set_opaque_from_hex_va(m->u, strbuf, accs[k].type, "v.%c[%d]", 'o', 10);
+        else err = uref_attr_set_opaque_from_hex_va(m->u, strbuf, accs[k].type, "%s", accs[k].name);
+    }
+    if (err == NO_ACCESSOR) { how = "uref_attr_set_opaque_from_hex"; err = uref_attr_set_opaque_from_hex(m->u, strbuf, accs[k].type, accs[k].name); }
+    static const char *const forms[] = { "digits", "digits", "upper/mixed case", "odd number of digits", "non-digit first in a pair", "non-digit second in a pair", "blank or sign inside", "digits" };
+    snprintf(c->what, sizeof c->what, "u%d %s %s(\"%.16s%s\": %zu characters, %s)", ui, key_str(k), how, strbuf, sl > 16 ? ".." : "", sl, forms[form]);
+    R("  %s -> %d\n", c->what, err);
+    if (in_domain) {
+        if (!ubase_check(err)) { FAILK("hex-refused", "%s returns error %d for a well-formed hexadecimal string", c->what, err); return; }
+        m_set(m, k, valbuf, n);
+        CLS(n ? CL_HEX_OK : CL_HEX_EMPTY);
+        after_store(c, m, k, was, old, n, re0);
+        return;
+    }
+    if (form == 3) CLS(CL_HEX_ODD);
+    /* not a documented input: an error must leave everything as it was (the lookups that follow check that); on success
+     * the attribute has to exist and read back the same from now on, whatever octets were made of the text */
+    if (!ubase_check(err)) { if (form != 3) CLS(CL_HEX_BAD_REFUSED); return; }
+    if (form != 3) CLS(CL_HEX_BAD_TAKEN);
+    uint8_t got[16]; const uint8_t *gp = got; size_t gn = 0;
+    if (!ubase_check(accs[k].get(m->u, got, &gp, &gn))) { FAILK("hex-inconsistent", "%s succeeds but the attribute is absent afterwards", c->what); return; }
+    m_set(m, k, gp, gn);
+    after_store(c, m, k, was, old, gn, re0);
+}
+
+static size_t put_dec(char *out, unsigned v) { char t[12]; int n = 0; do { t[n++] = '0' + v % 10; v /= 10; } while (v); for (int i = 0; i < n; i++) out[i] = t[n - 1 - i]; return n; }
+static void op_set_va(struct ctx *c)
+{
+    c->opname = "setva";
+    int ui = pick_live(c); if (ui < 0) return;
+    struct muref *m = &c->mu[ui];
+    static const char *const labels[] = { "flow_def", "vt_s_a", "vt_s_ab", "flow_name", "vt_n_fdef", "flow_role", "vt_s_abc", "flow_def" };
+    uint8_t sel = tp_u8(&c->t);
+    int which = sel & 7, kind = (sel >> 3) & 3;
+    int k = key_by_label(labels[which]);
+    use_key(c, k);
+    c->touched = ui; c->touched_key = k;
+    size_t n = gen_value(c, ui, k);                           /* a string of n - 1 characters in valbuf */
+    unsigned num = kind >= 2 ? ((sel & 0x80) ? tp_u32(&c->t) : tp_u8(&c->t)) : 0;
+    memcpy(strbuf, valbuf, n);
+    const char *s = strbuf, *fmt; size_t el = 0;
+    switch (kind) {
+    case 0: fmt = "%s"; memcpy(expbuf, s, n - 1); el = n - 1; break;
+    case 1: fmt = "block.%s."; memcpy(expbuf, "block.", 6); memcpy(expbuf + 6, s, n - 1); el = 6 + n - 1; expbuf[el++] = '.'; break;
+    case 2: fmt = "%s[%u]"; memcpy(expbuf, s, n - 1); el = n - 1; expbuf[el++] = '['; el += put_dec(expbuf + el, num); expbuf[el++] = ']'; break;
+    default: fmt = "%u%%"; el = put_dec(expbuf, num); expbuf[el++] = '%'; break;
+    }
+    expbuf[el++] = 0;
+    memcpy(valbuf, expbuf, el);
+    hash_val(c, k, el);
+    c->hash = vp_hash_mix(c->hash, sel);
+    bool was = m->e[k].present; size_t old = m->e[k].size;
+    unsigned long re0 = umem_count_stats(c->umem)->reallocs;
+    int err;
+#define CALL_VA(fn) (kind == 0 ? fn(m->u, "%s", s) : kind == 1 ? fn(m->u, "block.%s.", s) : kind == 2 ? fn(m->u, "%s[%u]", s, num) : fn(m->u, "%u%%", num))
+    switch (which) {
+    case 0: case 7: err = CALL_VA(uref_flow_set_def_va); CLS(CL_SETDEFVA); break;
+    case 1: err = CALL_VA(uref_vt_set_s_a_va); break;
+    case 2: err = CALL_VA(uref_vt_set_s_ab_va); break;
+    case 3: err = CALL_VA(uref_flow_set_name_va); break;
+    case 4: err = CALL_VA(uref_vt_set_n_fdef_va); break;
+    case 5: err = CALL_VA(uref_flow_set_role_va); break;
+    default: err = CALL_VA(uref_vt_set_s_abc_va); break;
+    }
+#undef CALL_VA
+    if (which != 0 && which != 7) CLS(CL_SETVA);
+    snprintf(c->what, sizeof c->what, "u%d %s set_va(\"%s\"%s) = string of %zu characters \"%.24s\"%s", ui, key_str(k), fmt,
+             kind == 3 ? ", number" : kind == 2 ? ", string, number" : ", string", el - 1, expbuf, el - 1 > 24 ? ".." : "");
+    R("  %s -> %d%s\n", c->what, err, was ? (old != el ? " [replaces, other size]" : " [replaces]") : "");
+    if (!ubase_check(err)) { FAILK("set-refused", "%s returns error %d", c->what, err); return; }
+    m_set(m, k, (const uint8_t *)expbuf, el);
+    after_store(c, m, k, was, old, el, re0);
+}
+
+/* entry point for the two appended keys (afterwards the older operations reach them through the recently-used list) */
+static void op_member(struct ctx *c)
+{
+    int ui = pick_live(c); if (ui < 0) return;
+    uint8_t sel = tp_u8(&c->t);
+    int k = (sel & 1) ? K_BOOLVA : K_PRIV;
+    switch ((sel >> 1) & 3) {
+    case 0: case 1: c->opname = "set"; do_set(c, ui, k); break;
+    case 2: c->opname = "delete"; do_delete(c, ui, k); break;
+    default: { c->opname = "attrcopy"; int src = pick_other(c, ui); if (src >= 0) do_attr_copy(c, ui, src, k); break; }
+    }
+}
+
+static void op_fork(struct ctx *c)
+{
+    c->opname = "fork";
+    int s = pick_live(c); if (s < 0) return;
+    uint8_t sel = tp_u8(&c->t);
+    int slot = pick_slot(c, s);
+    struct muref *m = &c->mu[slot], *ms = &c->mu[s];
+    c->hash = vp_hash_mix(c->hash, (sel & 3) << 8 | s * 8 | slot);
+    c->touched = slot;
+    if ((sel & 3) == 1 || (sel & 3) == 2) {
+        bool control = (sel & 3) == 2;
+        c->opname = "sibling";
+        snprintf(c->what, sizeof c->what, "u%d = %s(u%d)", slot, control ? "uref_sibling_alloc_control" : "uref_sibling_alloc", s);
+        m->u = control ? uref_sibling_alloc_control(ms->u) : uref_sibling_alloc(ms->u);
+        R("  %s -> %s\n", c->what, m->u ? "ok" : "NULL");
+        if (!m->u) { FAILK("alloc", "%s fails", c->what); return; }
+        CLS(control ? CL_SIBLING_CONTROL : CL_SIBLING);
+        if (control) CLS(CL_CONTROL);
+        if (m->u->mgr != ms->u->mgr) FAILK("sibling", "%s: the new uref belongs to another manager than u%d", c->what, s);
+        else if (control && m->u->udict == NULL) FAILK("sibling", "%s: the new uref has no dictionary (documented: a new uref with extra attributes space)", c->what);
+        return;                                   /* the lookups that follow require: no attribute, no flag, no ubuf */
+    }
+    struct ubuf *b = ubuf_block_alloc(c->bmgr, 1 + (sel >> 4));
+    if (!b) { c->ret = vp_internal(c->rep, "ubuf_block_alloc"); return; }
+    snprintf(c->what, sizeof c->what, "u%d = uref_fork(u%d, new ubuf)", slot, s);
+    m->u = uref_fork(ms->u, b);
+    R("  %s -> %s\n", c->what, m->u ? "ok" : "NULL");
+    if (!m->u) { ubuf_free(b); FAILK("dup-refused", "%s fails", c->what); return; }
+    for (int k = 0; k < NACC; k++) if (ms->e[k].present) m_set(m, k, ms->e[k].v, ms->e[k].size);
+    m->from_dup = ms->from_dup = true; m->peer = s; ms->peer = slot;
+    m->ub = b;                                     /* "attaches a new ubuf to the copy" */
+    CLS(CL_FORK); CLS(CL_DUP);
+}
+
+static void op_ubuf(struct ctx *c)
+{
+    c->opname = "ubuf";
+    int ui = pick_live(c); if (ui < 0) return;
+    struct muref *m = &c->mu[ui];
+    uint8_t sel = tp_u8(&c->t);
+    c->hash = vp_hash_mix(c->hash, (sel & 3) << 4 | ui << 1 | (m->ub != NULL));
+    if (!m->ub || (sel & 3) == 2) {
+        struct ubuf *b = ubuf_block_alloc(c->bmgr, 1 + (sel >> 4));
+        if (!b) { c->ret = vp_internal(c->rep, "ubuf_block_alloc"); return; }
+        snprintf(c->what, sizeof c->what, "uref_attach_ubuf(u%d, new ubuf)%s", ui, m->ub ? " [the one it held is freed]" : "");
+        R("  %s\n", c->what);
+        uref_attach_ubuf(m->u, b);
+        m->ub = b; CLS(CL_ATTACH);
+        return;
+    }
+    struct ubuf *b = uref_detach_ubuf(m->u);
+    CLS(CL_DETACH);
+    if (b != m->ub || m->u->ubuf != NULL) {
+        snprintf(c->what, sizeof c->what, "uref_detach_ubuf(u%d)", ui);
+        FAILK("ubuf", "%s returns %p and leaves %p in the uref; it held %p", c->what, (void *)b, (void *)m->u->ubuf, (void *)m->ub);
+        if (b && b != m->ub) ubuf_free(b);
+        return;
+    }
+    m->ub = NULL;
+    int to = -1;
+    if ((sel & 3) == 1) to = pick_other(c, ui); else if ((sel & 3) == 3) to = ui;
+    if (to < 0) { snprintf(c->what, sizeof c->what, "ubuf_free(uref_detach_ubuf(u%d))", ui); ubuf_free(b); }
+    else { snprintf(c->what, sizeof c->what, "uref_attach_ubuf(u%d, uref_detach_ubuf(u%d))", to, ui); uref_attach_ubuf(c->mu[to].u, b); c->mu[to].ub = b; CLS(CL_ATTACH); }
+    R("  %s\n", c->what);
+}
+
 static int run(const uint8_t *tp_, size_t len, struct vp_report *rep, unsigned flags)
 {
     static struct ctx ctx;
@@ -780,7 +1279,8 @@ static int run(const uint8_t *tp_, size_t len, struct vp_report *rep, unsigned f
     c->rep = rep; c->render = flags & VP_RENDER; c->pat = 2463534242u; c->hash = VP_HASH_INIT; c->opname = "init";
     for (int i = 0; i < MAXU; i++) c->mu[i].peer = -1;
     if (NACC > MAXACC) return vp_internal(rep, "accessor table too large");
-    for (int i = 0; i < NACC; i++) if (!is_flag(i) && key_lookup(accs[i].type, accs[i].name) != i) return vp_internal(rep, "accessor table: %s duplicates another (type, name)", accs[i].label);
+    if (CL_NCLASSES > 64) return vp_internal(rep, "too many classes");
+    for (int i = 0; i < NACC; i++) if (!in_uref(i) && key_lookup(accs[i].type, accs[i].name) != i) return vp_internal(rep, "accessor table: %s duplicates another (type, name)", accs[i].label);
 
     static const int depths[] = { 0, 1, 4 }, mins[] = { -1, 1, 2, 5, 16, 64, 300, 0 }, extras[] = { -1, 1, 3, 16, 200, 5000, 0, 2 }, ctl[] = { 0, 1, 64, 1000 };
     uint8_t cfg = tp_u8(&c->t), cfg2 = tp_u8(&c->t);
@@ -790,7 +1290,8 @@ static int run(const uint8_t *tp_, size_t len, struct vp_report *rep, unsigned f
     if (!c->umem) return vp_internal(rep, "umem_count_mgr_alloc");
     c->dmgr = udict_inline_mgr_alloc(depth, c->umem, minsz, extra);
     c->umgr = c->dmgr ? uref_std_mgr_alloc(depth, c->dmgr, ctlsz) : NULL;
-    if (!c->umgr) return vp_internal(rep, "manager allocation");
+    c->bmgr = ubuf_block_mem_mgr_alloc(depth, depth, c->umem, 0, 0, 0, 0);
+    if (!c->umgr || !c->bmgr) return vp_internal(rep, "manager allocation");
     R("C10 uref attributes: pool_depth=%d udict min_size=%d extra_size=%d control_attr_size=%d\n", depth, minsz, extra, ctlsz);
     if (depth) CLS(CL_POOL);
     R("  u0 = uref_alloc()\n");
@@ -799,10 +1300,21 @@ static int run(const uint8_t *tp_, size_t len, struct vp_report *rep, unsigned f
     int nops = 0;
     while (!tp_done(&c->t) && nops < MAXOPS && !c->ret) {
         nops++;
-        uint8_t op = tp_u8(&c->t) % 32;
-        c->hash = vp_hash_mix(c->hash, op);
+        uint8_t raw = tp_u8(&c->t), op = raw % 32, sub = raw - NEWOPS;
+        bool second = raw >= NEWOPS && raw < NEWOPS + 64;
+        c->hash = vp_hash_mix(c->hash, second ? 64 + sub : op);
         c->what[0] = 0; c->touched = -1; c->touched_key = -1;
-        if (op <= 11) op_set(c);
+        if (second) {                              /* the second family; the other octets decode as they always did */
+            if (sub <= 17) op_match(c);
+            else if (sub <= 25) op_copy_list(c);
+            else if (sub <= 33) op_delete_list(c);
+            else if (sub <= 43) op_from_hex(c);
+            else if (sub <= 49) op_set_va(c);
+            else if (sub <= 55) op_member(c);
+            else if (sub <= 59) op_fork(c);
+            else op_ubuf(c);
+        }
+        else if (op <= 11) op_set(c);
         else if (op <= 15) op_delete(c);
         else if (op <= 17) op_alias(c);
         else if (op <= 19) op_dup(c);
@@ -829,6 +1341,8 @@ static int run(const uint8_t *tp_, size_t len, struct vp_report *rep, unsigned f
     if (!urefcount_single(c->umgr->refcount)) leak = "uref manager still referenced (leaked uref)";
     uref_mgr_vacuum(c->umgr);
     udict_mgr_vacuum(c->dmgr);
+    ubuf_mgr_vacuum(c->bmgr);
+    ubuf_mgr_release(c->bmgr);
     uref_mgr_release(c->umgr);
     if (!leak && !urefcount_single(c->dmgr->refcount)) leak = "udict manager still referenced (leaked udict)";
     udict_mgr_release(c->dmgr);
